@@ -14,7 +14,10 @@ Det(prefix, n) == [name |-> n, body |-> [kind |-> "map", items |-> <<[field |-> 
 RP == <<82, 95>>   FP == <<70, 95>>     \* field prefixes R_ / F_ make the provenance of every predicate visible
 n_ua == <<95,97>>       \* _a : a detection of the rule whose name starts with an underscore
 RuleNames == <<n_sel, n_filter, n_sel_a, n_notable, n_ua>>
-FilterNames(fam) == <<n_sel, n_1x, IF fam = 1 THEN n_ax ELSE n_usx, n_And, n_notable>>
+n_all == <<97,108,108>>  n_any == <<97,110,121>>  n_of == <<111,102>>  n_one == <<49>>
+\* family 3: detections named like the words of the quantifier construct (keywords only in "<quantifier> of <pattern>")
+FilterNames(fam) == IF fam = 3 THEN <<n_sel, n_all, n_any, n_of, n_one>>
+                    ELSE <<n_sel, n_1x, IF fam = 1 THEN n_ax ELSE n_usx, n_And, n_notable>>
 RuleConds == {CId(n_sel), CSel("1", <<115,101,108,42>>), CSel("all", S_them), CBin("cand", CId(n_sel), CNot(CId(n_filter))),
               CSel("1", <<42,95,97>>), CBin("cor", CId(n_notable), CId(n_sel_a)),
               \* leading wildcards (would reach into the filter's renamed detections if the underscore rule failed)
@@ -62,8 +65,12 @@ hexn == <<100, 101, 97, 100, 98, 101, 101, 102, 100, 101, 97, 100, 98, 101, 101,
 HexName == {[rules |-> <<[Rule1(<<CPrint(rc, "min")>>) EXCEPT !.name = hexn], Rule2>>,
              filters |-> <<[MkFilter(1, fc, Ls(cat1, <<>>, <<>>), "name") EXCEPT !.rules = <<hexn>>]>>] :
               rc \in {CId(n_sel), CSel("1", S_them)}, fc \in FilterConds}
+KwNamed == {[rules |-> <<Rule1(<<CPrint(rc, "min")>>), Rule2>>, filters |-> <<MkFilter(3, fc, Ls(cat1, <<>>, <<>>), "any")>>] :
+              rc \in {CId(n_sel), CSel("all", S_them)},
+              fc \in {CNot(CId(n_all)), CId(n_any), CBin("cand", CId(n_sel), CNot(CId(n_of))), CNot(CId(n_one)),
+                      CSel("1", <<97,42>>), CBin("cor", CSel("all", S_them), CId(n_all))}}
 NoPipe(S) == {c @@ [pipe |-> FALSE] : c \in S}
-ASSUME LET S == SetToSeq(TwoTargets \cup NoPipe(Single \cup TwoConds \cup HexName \cup Underscore \cup (IF Quick THEN RandomSubset(150, Stacked) ELSE Stacked)))
+ASSUME LET S == SetToSeq(TwoTargets \cup NoPipe(Single \cup TwoConds \cup HexName \cup KwNamed \cup Underscore \cup (IF Quick THEN RandomSubset(150, Stacked) ELSE Stacked)))
        IN  ndJsonSerialize(IOEnv.VERIF_OUT, [i \in 1..Len(S) |-> [id |-> i] @@ S[i]])
 Init == x = 0
 Next == UNCHANGED x
